@@ -92,6 +92,15 @@ func Pick[T any](q, th T) T {
 	return q
 }
 
+// PropertyOr returns the property the runner is checking (VERIF_PROPERTY), or def when run by hand: for
+// sub-checks that are part of several properties' checks.
+func PropertyOr(def string) string {
+	if p := os.Getenv("VERIF_PROPERTY"); p != "" {
+		return p
+	}
+	return def
+}
+
 // Seed returns VERIF_SEED (default 1).
 func Seed() int64 {
 	if s := os.Getenv("VERIF_SEED"); s != "" {
